@@ -1,6 +1,8 @@
 #!/bin/sh
 # usage: tools/sweep.sh "<props>" "<seeds>"   - runs quick checks over several seeds, prints one line per run
 cd "$(dirname "$0")/.."
+[ -n "${VP_RUN_REPO:-}" ] && export KAWIN_SRC="$VP_RUN_REPO"
+[ -d .deps ] || sh ./setup.sh >/dev/null 2>&1
 for p in $1; do for s in $2; do
   out=$(VERIF_SEED=$s ./check $p quick --no-evidence 2>&1); rc=$?
   echo "$p seed=$s rc=$rc $(echo "$out" | tail -1 | cut -c1-150)"
